@@ -26,6 +26,50 @@ func generic(b []byte) (any, error) {
 	return v, err
 }
 
+// hasDupKeys reports whether some object of doc has two members with the same (decoded) key:
+// distinct Go map keys with invalid UTF-8 are coerced to the same U+FFFD string.  For such
+// documents the decoded generic value depends on the member order, so only sorted outputs can
+// be compared by meaning.
+func hasDupKeys(doc []byte) bool {
+	dec := stdjson.NewDecoder(bytes.NewReader(doc))
+	type frame struct {
+		obj  bool
+		key  bool
+		seen map[string]bool
+	}
+	var st []frame
+	for {
+		tk, err := dec.Token()
+		if err != nil {
+			return false
+		}
+		switch v := tk.(type) {
+		case stdjson.Delim:
+			if v == '{' || v == '[' {
+				if n := len(st); n > 0 && st[n-1].obj {
+					st[n-1].key = true
+				}
+				st = append(st, frame{obj: v == '{', key: true, seen: map[string]bool{}})
+			} else {
+				st = st[:len(st)-1]
+			}
+			continue
+		case string:
+			if n := len(st); n > 0 && st[n-1].obj && st[n-1].key {
+				if st[n-1].seen[v] {
+					return true
+				}
+				st[n-1].seen[v] = true
+				st[n-1].key = false
+				continue
+			}
+		}
+		if n := len(st); n > 0 && st[n-1].obj {
+			st[n-1].key = true
+		}
+	}
+}
+
 func show(x any) string {
 	s := fmt.Sprintf("%#v", x)
 	if len(s) > 300 {
@@ -124,6 +168,10 @@ func checkAppendFlags(c *core.Case, class string, v reflect.Value, rawValid bool
 	if refAmbiguous {
 		c.Count("reference-disagrees-with-itself(html on/off)", 1)
 	}
+	dupKeys := defErr == nil && hasDupKeys(def)
+	if dupKeys {
+		c.Count("skipped.unsorted-meaning.duplicate-keys-after-utf8-coercion", 1)
+	}
 	for f := json.AppendFlags(0); f < 8; f++ {
 		if f&json.TrustRawMessage != 0 && !rawValid {
 			continue
@@ -149,7 +197,7 @@ func checkAppendFlags(c *core.Case, class string, v reflect.Value, rawValid bool
 			c.Violation(cl, "invalid-json", fmt.Sprintf("Append(flags=%s) of %s returned %q: %v", flagName(f), show(x), tr(out), e), map[string]any{"value": show(x), "flags": flagName(f)})
 			continue
 		}
-		if !reflect.DeepEqual(val, defVal) && !(refAmbiguous && f&json.EscapeHTML == 0) {
+		if !reflect.DeepEqual(val, defVal) && !(refAmbiguous && f&json.EscapeHTML == 0) && !(f&json.SortMapKeys == 0 && dupKeys) {
 			c.Violation(cl, "meaning-diff", fmt.Sprintf("Append(flags=%s) of %s = %q decodes differently from the default output %q", flagName(f), show(x), tr(out), tr(def)), map[string]any{"value": show(x), "flags": flagName(f)})
 			continue
 		}
